@@ -955,6 +955,6 @@ def _header_tables(out, facts):
                     fa = fmt_arguments(ct.args[1]) if len(ct.args) > 1 else None
                     txt = M.show(ct)[:200]
                     # exactly one placeholder, no literal text, argument = the stored string
-                    ok = fa is not None and fa[0] in ('b"\\xc0\\x00"',) and fa[1] == [T("field", "0", (T("param", 1),))]
+                    ok = fa is not None and fa[0] in ('b"\\xc0\\x00"', b"\xc0\x00") and fa[1] == [T("field", "0", (T("param", 1),))]
                 msg = "Display must print exactly the stored string: %s" % txt
             _f(out, "C07.R3", bool(ok), b["id"], "%s string of %s" % (what, name.split("::")[-1]), msg, b["line"], file=v.file(), desc="%s %s = %r / field 0" % (name.split("::")[-1], what, lit))
